@@ -49,7 +49,9 @@ def make_pairs(ctx, n_types, depth):
     types, seen = [], set()
     directed = directed_types()
     r.shuffle(directed)
-    cands = directed[: max(8, n_types // 2)] + [A.gen_type(r, r.randint(1, depth), budget=900) for _ in range(4 * n_types)]
+    # always present: dynamic arrays whose elements need no clamp (bulk-copy path: the count check is the only guard)
+    must = [("darr", ("uint", 256), 2), ("darr", ("tuple", (("int", 256), ("bytesM", 32))), 2)]
+    cands = must + directed[: max(8, n_types // 2)] + [A.gen_type(r, r.randint(1, depth), budget=900) for _ in range(4 * n_types)]
     for t in cands:
         if t not in seen and len(types) < n_types:
             seen.add(t)
@@ -107,6 +109,14 @@ def classify(kind, canonical, exp, ok, out, base):
         if ok:
             return "failing", "accepted an input that has no in-type decoding (model rejects)"
         return "ok", ""
+    if kind == "len":
+        if ok and int.from_bytes(out, "big") != int(exp, 16):
+            return "failing", "len(x) observed by the program differs from the length in the decoding of the bytes"
+        if not ok and canonical:
+            return "failing", "canonical encoding of an in-type value was rejected"
+        if not ok:
+            return "corr", "model accepts this non-canonical calldata but the contract reverts"
+        return "ok", ""
     if ok:
         if (out != base) if exp == "=" else (digest(out) != exp[1:]):
             return "failing", "accepted, but the observed (echoed) value differs from the decoding of the bytes"
@@ -118,7 +128,37 @@ def classify(kind, canonical, exp, ok, out, base):
     return "ok", ""   # memory payload bounds (hi) are stricter than the model: allowed
 
 
+def do_replay(ctx):
+    """re-execute exactly the recorded input on the current /repo tree; the model outcome is the recorded one"""
+    import json
+    rec = json.loads(open(ctx.replay).read())
+    d = rec["detail"]
+    ctx.log("replay:", rec["kind"], "-", rec["name"])
+    if not all(k in d for k in ("source", "config", "entry", "input_hex", "model", "canonical_base")):
+        print(json.dumps(d, indent=1, default=str)[:3000])
+        return
+    cfg = [c for c in C.quick_configs() + C.thorough_configs() + C.core_configs() if c.name == d["config"]][0]
+    base = bytes.fromhex(d["canonical_base"])
+    res = H.run_job((d["source"], cfg, [base], [[(d["entry"], bytes.fromhex(d["input_hex"]))]]))
+    if res["error"]:
+        ctx.violation("correspondence-broken", "replay could not run: " + res["error"][:200], d)
+        return
+    ok, out = res["obs"][0][0]
+    verdict, text = classify(d["entry"], d.get("corruption") == "CX []", d["model"], ok, out, base)
+    ctx.log("entry", d["entry"], "config", d["config"], "type", d.get("type"), "corruption", d.get("corruption"))
+    ctx.log("model outcome:", d["model"][:80], "| observed now: ok =", ok, "out =", out.hex() if isinstance(out, bytes) else out)
+    ctx.corr["evaluations"] = 1
+    ctx.corr["distinct_nontrivial"] = 1
+    if verdict != "ok":
+        ctx.violation("failing-input" if verdict == "failing" else "correspondence-broken", "replayed: " + text,
+                      dict(d, observed_ok=ok, observed_out=out.hex() if isinstance(out, bytes) else out))
+    else:
+        ctx.log("replayed input now behaves as the model says")
+
+
 def run(ctx):
+    if ctx.replay:
+        return do_replay(ctx)
     try:  # coqc child processes inherit the stack limit
         import resource
         soft, hard = resource.getrlimit(resource.RLIMIT_STACK)
@@ -148,6 +188,8 @@ def run(ctx):
                      f"join (expect_call t [1;2;3;4] base {cl})")
         exprs.append(f"let t := {ct} in let base := enc t (VList [{A.coq_val(t, v)}]) in "
                      f"join (expect_payload t base {cl})")
+        exprs.append(f"let t := {ct} in let base := enc t (VList [{A.coq_val(t, v)}]) in "
+                     f"join (expect_len t [1;2;3;4] base {cl})")
     outs = A.coq_strings(exprs, "c05exp", imports=IMPORTS, shard=12, timeout=400)
     # ---- jobs
     cfgs = C.configs(ctx.tier)
@@ -162,14 +204,19 @@ def run(ctx):
         for v in vals:
             base = bases[k]
             cs = corr[k]
-            e_call = outs[2 * k].split(",")
-            e_pay = outs[2 * k + 1].split(",")
+            e_call = outs[3 * k].split(",")
+            e_pay = outs[3 * k + 1].split(",")
+            e_len = outs[3 * k + 2].split(",")
+            has_len = t[0] in ("bytes", "string", "darr")
             assert len(e_call) == len(cs) == len(e_pay), (len(e_call), len(cs))
             ins, ms = [], []
             for j, (cterm, fn) in enumerate(cs):
                 data = fn(base)
                 ins.append(("call", data))
                 ms.append(("call", cterm, e_call[j], data))
+                if has_len:
+                    ins.append(("len", data))
+                    ms.append(("len", cterm, e_len[j], data))
                 if j % 2 == 0 or j < 8:
                     ins.append(("mem", data))
                     ms.append(("mem", cterm, e_pay[j], data))
@@ -190,7 +237,7 @@ def run(ctx):
     with ProcessPoolExecutor(max_workers=4) as ex:
         results = list(ex.map(H.run_job, jobs, chunksize=2))
     n = 0
-    stats = {"call": 0, "mem": 0, "ret": 0, "ctor": 0, "accepted": 0, "rejected": 0, "accepted_noncanonical": 0,
+    stats = {"call": 0, "len": 0, "mem": 0, "ret": 0, "ctor": 0, "accepted": 0, "rejected": 0, "accepted_noncanonical": 0,
              "model_accepts_contract_rejects_payload": 0}
     nfail = 0
     for (t, vals, src, cfg, metas, bl), res in zip(jm, results):
@@ -217,7 +264,7 @@ def run(ctx):
                 nfail += 1
                 if nfail > 6:
                     continue
-                how = {"call": "call echo(x) with calldata = selector ++ input", "mem": "call dec(b) with b = input (abi_decode)",
+                how = {"call": "call echo(x) with calldata = selector ++ input", "len": "call ln(x) with calldata = selector ++ input", "mem": "call dec(b) with b = input (abi_decode)",
                        "ctor": "deploy initcode ++ input, then call get()", "ret": "viaret(a): callee a returns input as returndata"}[kind]
                 detail = {"source": src, "config": cfg.name, "entry": kind, "how": how, "type": A.eth_ty(t),
                           "value": repr(vals[vi]), "corruption": cterm, "input_hex": data.hex(),
